@@ -184,6 +184,7 @@ func runFlood(c *verdict.Ctx, r *rec, n *n3Node, flooders []*p2p.Switch, fc *flo
 			<-barrier
 			var h int64
 			var rd int32
+			timeouts := 0
 			for k := 0; k < fc.PerPeer && atomic.LoadInt32(&stop) == 0; k++ {
 				if k%50 == 0 { // follow the node: the flood is always about its current height / round
 					cur := n.roundStateQuick()
@@ -196,8 +197,13 @@ func runFlood(c *verdict.Ctx, r *rec, n *n3Node, flooders []*p2p.Switch, fc *flo
 					if !peers[i].IsRunning() {
 						return // the node (or the connection) dropped this peer: allowed
 					}
-					continue // Send timed out on a full queue: the message was not accepted
+					// Send timed out (10 s) on a full queue: the message was not accepted
+					if timeouts++; timeouts >= 3 {
+						return // nothing has moved for 30 s: the rest of the flood adds nothing
+					}
+					continue
 				}
+				timeouts = 0
 				atomic.AddInt64(&accepted[i], 1)
 			}
 		}(i)
@@ -262,7 +268,7 @@ mirror:
 			time.Sleep(2 * time.Millisecond)
 		}
 	}
-	ok := waitDrain(90 * time.Second)
+	ok := waitDrain(60 * time.Second)
 	res.drainMs = time.Since(t0).Milliseconds()
 	res.detail["max_receive_calls_in_flight"] = atomic.LoadInt64(&w.maxIn)
 	res.detail["heights_committed_during_flood"] = res.heights
@@ -502,8 +508,9 @@ func runN3flood(c *verdict.Ctx, dir string, mu *sync.Mutex) {
 			}
 			mu.Lock()
 			c.Violation(key, what, map[string]interface{}{"stream": "n3flood", "first_execution": first, "second_execution": cand})
+			c.Count("n3flood.cases_not_run_after_confirmed_violation", int64(len(rest)))
 			mu.Unlock()
-			todo = rest
+			todo = nil // the verdict is established; every further case would cost minutes of watchdogs
 		} else {
 			first = cand
 			todo = append([]string{fmt.Sprintf("%d:confirm", caseIdx)}, rest...)
